@@ -361,10 +361,12 @@ theorem submoduleLog_facts {l : L} (h : startsWith l.text Markers.submoduleLog =
     by simp [ht, detectSource, startsWithAny, startsWith, Generated.gitDiffPrefixes, Generated.diffUnifiedPrefixes,
       Markers.submoduleLog, List.isPrefixOf]⟩
 
-/-- (L) the `Submodule …:` line with nothing pending: written as a file header showing the line -/
-theorem sublog_step {cfg : Cfg} (hc : FHC cfg) {m : M} {l : L} (h : Settled2 m) (hl : isSubmoduleLogLine l = true) :
+/-- (L) the `Submodule …:` line: the header that is due for the section before it (if any) is written first
+(`handle_pending_line_with_diff_name` at the top of `handle_submodule_log_line`), then the line itself as a
+file header -/
+theorem sublog_step {cfg : Cfg} (hc : FHC cfg) {m : M} {l : L} (h : Pre m) (hl : isSubmoduleLogLine l = true) :
     ∃ m', step cfg m l = .ok m' ∧ SLog m' ∧
-      fileTL m' = fileTL m ++ [{ kind := .file, text := fileRowText cfg l.text, src := m.n }] ∧ m'.n = m.n + 1 := by
+      fileTL m' = facct cfg m ++ [{ kind := .file, text := fileRowText cfg l.text, src := m.n }] ∧ m'.n = m.n + 1 := by
   unfold isSubmoduleLogLine at hl
   simp only [Bool.and_eq_true, Bool.not_eq_true'] at hl
   obtain ⟨hsw, hcr⟩ := hl
@@ -376,43 +378,56 @@ theorem sublog_step {cfg : Cfg} (hc : FHC cfg) {m : M} {l : L} (h : Settled2 m) 
   have e7 := handleHunkHeader_not_mine cfg m l hhh
   have e8 := handleModeLine_not_mine cfg m l hom hnm
   have e9 := handleMisc_not_mine cfg m l hoi hbin
-  obtain ⟨x, hx⟩ : ∃ x : M, x = emit { flushMP m with st := .submoduleLog } := ⟨_, rfl⟩
-  have hsh : shouldHandle cfg { flushMP m with st := .submoduleLog } = true := by
+  -- the pending header of the section before
+  obtain ⟨f1, f2, f3, f4, f5, f6, f7, f8, f9⟩ := flushMP_hfields m
+  have hpend : ((flushMP m).modeInfo = [] ∧ (flushMP m).handledPair = (flushMP m).currentPair) ∨
+      ((flushMP m).st = .diffHeader .unified ∧ (flushMP m).source = .gitDiff) := by
+    rcases h.pend with ⟨a, b⟩ | ⟨a, b⟩
+    · exact Or.inl ⟨by rw [f3]; exact a, by rw [f7, f8]; exact b⟩
+    · exact Or.inr ⟨by rw [flushMP_st]; exact a, by rw [flushMP_source]; exact b⟩
+  obtain ⟨pk, pt⟩ := pendingDiffName_acct hc (flushMP m) hpend (by simp) (by simp)
+  obtain ⟨y, hy⟩ : ∃ y, y = pendingDiffName cfg (flushMP m) := ⟨_, rfl⟩
+  rw [← hy] at pk pt
+  have hym : y.minus = [] := by rw [pk.minus]; simp
+  have hyp : y.plus = [] := by rw [pk.plus]; simp
+  have hfy : flushMP y = y := by unfold flushMP; simp [hym, hyp]
+  -- the line itself
+  obtain ⟨x, hx⟩ : ∃ x : M, x = emit { y with st := .submoduleLog } := ⟨_, rfl⟩
+  have hsh : shouldHandle cfg { y with st := .submoduleLog } = true := by
     unfold shouldHandle getStyle; simp [hc.notRaw]
   have e10 : handleSubmoduleLog cfg m l = .ok (true, writeGeneric cfg x l.text l.raw) := by
     rw [hx]
     unfold handleSubmoduleLog handleAdditionalCases
+    rw [← hy, hfy]
     simp only [hsw, Bool.not_true, Bool.false_eq_true, if_false, hsh, if_true]
   have ec : chain cfg l Generated.handlerOrder m = .ok (writeGeneric cfg x l.text l.raw) := by
     rw [hdr_prefix cfg m hcr hdiff hfo hmn hpl]
     simp only [tailNames, Generated.handlerOrder, List.drop, chain, handlerOf, e7, e8, e9, e10]
   have g := (chain_step _ ec h.good).good
-  obtain ⟨f1, f2, f3, f4, f5, f6, f7, f8, f9⟩ := flushMP_hfields m
   obtain ⟨w1, w2, w3, w4, w5, w6⟩ := writeGeneric_keeps hc x l.text l.raw
-  have hxm : x.minus = [] := by rw [hx]; show (flushMP m).minus = []; simp
-  have hxp : x.plus = [] := by rw [hx]; show (flushMP m).plus = []; simp
+  have hxm : x.minus = [] := by rw [hx]; exact hym
+  have hxp : x.plus = [] := by rw [hx]; exact hyp
   have hxb : x.buf = [] := by rw [hx]; rfl
-  have hxmi : x.modeInfo = [] := by rw [hx]; show (flushMP m).modeInfo = []; rw [f3]; exact h.mode
-  have hxn : x.n = m.n := by rw [hx]; exact f9
-  have hxtl : fileTL x = fileTL m := by
+  have hxmi : x.modeInfo = [] := by rw [hx]; exact pk.mode
+  have hxn : x.n = m.n := by rw [hx]; show y.n = m.n; rw [pk.n]; exact f9
+  have hxtl : fileTL x = fileTL y := by
     rw [hx, fileTL_emit]
-    have : timeline ({ flushMP m with st := .submoduleLog } : M) = timeline (flushMP m) := rfl
-    rw [fileTL_congr this, fileTL_flushMP]
+    have : timeline ({ y with st := .submoduleLog } : M) = timeline y := rfl
+    rw [fileTL_congr this]
   have hfile := writeGeneric_fileA hc x l.text l.raw hxb hxm hxp
-  rw [hxmi, fileRowTextA_nil, hxtl, hxn] at hfile
+  rw [hxmi, fileRowTextA_nil, hxtl, hxn, pt, fileTL_flushMP, pendRows_congr f1 f2 f3 f4 f5 f6 f7 f8 f9] at hfile
   refine ⟨{ writeGeneric cfg x l.text l.raw with n := (writeGeneric cfg x l.text l.raw).n + 1 }, ?_, ?_, ?_, ?_⟩
   · unfold step; rw [hinit, ec]
   · refine ⟨⟨?_, ?_, w2, ?_, ⟨g.order, g.quiet, g.noPlus⟩⟩, ?_⟩
     · show (writeGeneric cfg x l.text l.raw).source = .gitDiff ∨ (writeGeneric cfg x l.text l.raw).source = .unknown
-      rw [w6, hx]; show (flushMP m).source = _ ∨ (flushMP m).source = _
-      rw [flushMP_source]; exact h.src
+      rw [w6, hx]; show y.source = _ ∨ y.source = _
+      rw [pk.src, flushMP_source]; exact h.src
     · show (writeGeneric cfg x l.text l.raw).counter ≤ -4096
-      rw [w1, hx]; show (flushMP m).counter ≤ -4096
+      rw [w1, hx]; show y.counter ≤ -4096
       have : (flushMP m).counter = m.counter := by unfold flushMP; split <;> rfl
-      rw [this]; exact h.cnt
+      rw [pk.cnt, this]; exact h.cnt
     · show (writeGeneric cfg x l.text l.raw).handledPair = (writeGeneric cfg x l.text l.raw).currentPair
-      rw [w4, w3, hx]; show (flushMP m).handledPair = (flushMP m).currentPair
-      rw [f7, f8]; exact h.pair
+      rw [w4, w3, hx]; exact pk.pair
     · show (writeGeneric cfg x l.text l.raw).st = .submoduleLog
       rw [writeGeneric_st, hx]; rfl
   · exact (fileTL_congr rfl).trans hfile
